@@ -333,7 +333,7 @@ def generate(tier, rng, hist):
         t = TEXTS[i % len(TEXTS)] if i < 2 * len(TEXTS) else random_text(rng)
         out.append("conc.stress %s %d %d %d" % (hx(t), rng.choice([2, 3, 4, 4]), rounds, rng.below(1 << 30)))
     # one long text: building its index takes long enough for other threads (and clones taken meanwhile) to overlap it
-    out.append("conc.stress %s 3 %d %d" % (hx("ab\n" * 200000), 4 if tier == "quick" else 25, rng.below(1 << 30)))
+    out.append("conc.stress %s 3 %d %d" % (hx("ab\n" * 200000), 3 if tier == "quick" else 6, rng.below(1 << 30)))
     bump(hist, "stress_long_text", 1)
     bump(hist, "stress_cases", ns)
     bump(hist, "stress_rounds", ns * rounds)
